@@ -141,6 +141,15 @@ def sweep(tc):
     return t
 
 
+def reorder_keys(x):
+    """the same JSON value with the keys of every object in reverse order"""
+    if isinstance(x, dict):
+        return {k: reorder_keys(x[k]) for k in reversed(list(x))}
+    if isinstance(x, list):
+        return [reorder_keys(v) for v in x]
+    return x
+
+
 def run_A(case):
     fam, settings = profile_settings(case["profile"])
     cls = family_cls(fam)
@@ -173,6 +182,10 @@ def run_A(case):
         js2 = m2.to_json()
         m3 = cls.from_dict(m1.to_dict())
         js3 = m3.to_json()
+        # the same document with its object keys in another order (sorted, as a jsonb column or sort_keys=True returns them;
+        # and reversed): the order of the keys of a JSON object carries no meaning
+        m4 = cls.from_json(json.dumps(doc, sort_keys=True))
+        m5 = cls.from_dict(reorder_keys(copy.deepcopy(doc)))
     except Exception as exc:
         return {"behaviour": ["roundtrip_raises", type(exc).__name__],
                 "violations": [{"clause": "roundtrip_raises", "key": dict(key, exc=type(exc).__name__),
@@ -199,7 +212,7 @@ def run_A(case):
     for usage in (False, True):
         data = reporting_daily(fam, temps, usage)
         outs = []
-        for m in (m1, m2, m3):
+        for m in (m1, m2, m3, m4, m5):
             try:
                 outs.append(m.predict(data, ignore_disqualification=True))
             except Exception as exc:
@@ -257,8 +270,22 @@ FITTED = [  # (name, family for c02 builders, model factory kwargs)
     ("hourly_bins", "hourly", {"settings": {"seed": 7, "temperature_bin": {"method": "equal_bin_width", "n_bins": 5, "bin_width": None, "include_edge_bins": False,
                                                                      "edge_bin_rate": None, "edge_bin_percent": None}}}),
     ("hourly_poorfit", "hourly", {"settings": {"seed": 7, "cvrmse_threshold": 1e-6, "pnrmse_threshold": 1e-6}}),
+    # supplemental columns whose names carry capitals / a blank (feature names are stored in the document and matched on load)
+    ("hourly_supp", "hourly", {"settings": {"seed": 7, "supplemental_time_series_columns": ["Wind_Speed"],
+                                            "supplemental_categorical_columns": ["Occ Mode"]}}),
     ("caltrack", "caltrack", {}),
 ]
+
+
+def add_supplemental(frame):
+    """two extra measured columns (deterministic) for the `hourly_supp` profile; the meter follows them a little"""
+    frame = frame.copy()
+    rng = np.random.default_rng(77)
+    frame["Wind_Speed"] = np.round(rng.uniform(0, 20, len(frame)), 1)
+    frame["Occ Mode"] = (frame.index.dayofweek >= 5).astype(int)
+    if "observed" in frame:
+        frame["observed"] = frame["observed"] + 0.02 * frame["Wind_Speed"] + 0.3 * frame["Occ Mode"]
+    return frame
 
 
 def build_fitted(name):
@@ -278,13 +305,15 @@ def build_fitted(name):
     frame = c02.baseline_frame(fam, 365, seed=0)
     if name.endswith("_fixed_offset"):
         frame = frame.tz_localize(None).tz_localize("-06:00")
+    if name == "hourly_supp":
+        frame = add_supplemental(frame)
     if name == "daily_maps":
         frame = ds.daily_frame(start="2021-01-01", days=365, tz=ZONE, wseed=0, seed=0, noise=0.05, weekend_factor=1.5, summer_factor=1.3)
     data = c02.make_baseline(fam, frame)
     return fam, c02.fit(fam, m, data), type(m)
 
 
-def reporting_sets(fam, tier, zone=None):
+def reporting_sets(fam, tier, zone=None, supp=False):
     """(name, data object) : inside the fitted range, far colder, far hotter, with NaN temperature, with / without usage"""
     import opendsm.eemeter as em
 
@@ -304,6 +333,8 @@ def reporting_sets(fam, tier, zone=None):
     solar = fam == "hourly_solar"
     days = 60 if fam != "caltrack" else 45
     base = ds.hourly_frame(start="2022-02-10", days=days, tz=ZONE, wseed=4, seed=14, solar=solar)  # crosses the March DST change
+    if supp:
+        base = add_supplemental(base)
     for vn, off in (("inside", 0.0), ("colder", -70.0), ("hotter", 70.0), ("nan_T", None)):
         fr = base.copy()
         if off is None:
@@ -340,7 +371,7 @@ def run_B(case):
     except Exception as exc:
         return {"behaviour": [name, "to_json_raises"], "violations": [{"clause": "to_json_raises", "key": key0, "detail": repr(exc)}]}
     desc0 = describe(model)
-    sets = reporting_sets(fam, case["tier"], zone="-06:00" if name.endswith("_fixed_offset") else None)
+    sets = reporting_sets(fam, case["tier"], zone="-06:00" if name.endswith("_fixed_offset") else None, supp=name == "hourly_supp")
     ref = {}
     for sn, d in sets:
         try:
@@ -472,7 +503,7 @@ def run_case(case):
 def cases_B(tier):
     names = [f[0] for f in FITTED]
     if tier == "quick":
-        names = ["daily_current", "daily_legacy", "daily_poorfit", "billing", "daily_fixed_offset", "billing_fixed_offset", "hourly", "hourly_solar", "hourly_robust", "hourly_bins", "caltrack"]
+        names = ["daily_current", "daily_legacy", "daily_poorfit", "billing", "daily_fixed_offset", "billing_fixed_offset", "hourly", "hourly_solar", "hourly_robust", "hourly_bins", "hourly_supp", "caltrack"]
     out = [{"part": "B", "fit": n, "tier": tier, "depth": 3 if tier == "thorough" else 2} for n in names]
     out += [{"part": "R", "fit": f, "tier": tier} for f in (("daily", "billing", "hourly") if tier == "quick" else
                                                                ("daily", "billing", "hourly", "hourly_solar", "caltrack"))]
